@@ -335,6 +335,21 @@ func (sc *c13Scenario) Run(s *simrt.Sim) {
 		}
 		sc.probes["ask-object-reused-after-successful-asks"]++
 	}
+	// The library's default Actor is a closed placeholder: it never answers, so an ask with a timeout ends with the
+	// timeout error (and does not hang in the hand-over)
+	{
+		var dop *Op
+		dt := s.Go("asker-of-default-actor", func() {
+			dop = h.Do("asker-of-default-actor", "AskOnceWithTimeout", -1, func() (interface{}, error) {
+				return fpgo.AskNewGenerics[int, int](-1).AskOnceWithTimeout(fpgo.Actor.GetDefault(), time.Millisecond)
+			})
+		})
+		if !s.WaitUntilTimeout(dt.Done, 30*time.Minute) {
+			sc.extra = append(sc.extra, Violation{Clause: "hang", Fingerprint: "ask-on-the-closed-default-actor-never-returns", Detail: "AskOnceWithTimeout(Actor.GetDefault(), 1ms) did not return"})
+		} else if dop != nil && dop.Panic == "" && (dop.Err != fpgo.ErrActorAskTimeout || dop.Val != 0) {
+			sc.extra = append(sc.extra, Violation{Clause: "timeout", Fingerprint: "ask-on-the-closed-default-actor", Detail: "AskOnceWithTimeout(Actor.GetDefault(), 1ms): " + dop.String() + ", want (0, ErrActorAskTimeout)"})
+		}
+	}
 	// Last of all: a question whose answer is followed by the actor closing itself. The asker talks to the actor
 	// directly (no proxy). The answer was given in time, so the asker gets it, closed actor or not.
 	msg++
